@@ -156,25 +156,40 @@ def check(chk, lib):
                 continue
             lo = lib.summary(mn).live[0].ret
             hi = lib.summary(mx).live[0].ret
-            # true exactly when min <= val and val <= max: the all-true path returns 1, others 0
+            # truth table: under every assignment of A = (min <= val), B = (val <= max) consistent with the path's
+            # decisions the result is A && B
+            cA = tcmp(T, "<=", lo, sym("this.val"))
+            cB = tcmp(T, "<=", sym("this.val"), hi)
             okp = True
             for p in s.live:
-                conds = [(c, t) for c, t in p.pc]
-                allt = all(t for c, t in conds)
-                g = lin(p.ret) if p.ret is not None else None
-                if g is not None and g.is_const():
-                    if (g.k == 1) != allt and conds:
-                        okp = False
-                else:
-                    # returned the last comparison: must be val <= max
-                    if g != tcmp(T, "<=", sym("this.val"), hi):
-                        okp = False
-            allc = set()
-            for p in s.live:
+                dec = {}
                 for c, t in p.pc:
-                    allc.add(c)
-            if tcmp(T, "<=", lo, sym("this.val")) not in allc:
-                okp = False
+                    c = lin(c)
+                    if c == cA:
+                        dec["A"] = t
+                    elif c == cB:
+                        dec["B"] = t
+                    else:
+                        okp = False          # branches on something else
+                g = lin(p.ret) if p.ret is not None else None
+                for A in (True, False):
+                    for B in (True, False):
+                        if dec.get("A", A) != A or dec.get("B", B) != B:
+                            continue
+                        if g is None:
+                            okp = False
+                        elif g.is_const():
+                            val = bool(g.k)
+                            if val != (A and B):
+                                okp = False
+                        elif g == cA:
+                            if A != (A and B):
+                                okp = False
+                        elif g == cB:
+                            if B != (A and B):
+                                okp = False
+                        else:
+                            okp = False
             if not okp:
                 chk.violation("OPT.in_range", "in_range", where(f), "in_range of %s is not (min <= val) && (val <= max)" % D)
             else:
